@@ -127,14 +127,19 @@ def _setup_cipher(case, rng, n):
     return data.astype('uint8'), state.astype('uint8'), exp, tag, ctor, np.array(key, dtype='uint8')
 
 
-def _simulate(rng, leak, T=6):
-    """leak (n, w<=2) -> float32 samples with the leakage of word j at sample 1 + 3*j and uniform noise in +-0.5 everywhere."""
+def _simulate(rng, leak, T=6, constant=False):
+    """leak (n, w<=3) -> float32 samples with the leakage of word j at sample 1 + 3*j and uniform noise in +-0.5 everywhere;
+    optionally some samples are constant (zero padding / saturation): the statistic is undefined there and must be ignored by the discriminant."""
     n = leak.shape[0]
+    T = max(T, 3 * leak.shape[1] + 1)
     s = rng.uniform(-0.5, 0.5, (n, T))
     pos = []
     for j in range(leak.shape[1]):
         s[:, 1 + 3 * j] += leak[:, j]
         pos.append(1 + 3 * j)
+    if constant:
+        s[:, 0] = 0.0
+        s[:, -1] = 7.0
     return s.astype('float32'), pos
 
 
@@ -179,7 +184,12 @@ def run_attack(case):
     n = 1500 if cipher == 'aes' else 1200
     data, state, exp_rk, tag, ctor, key = _setup_cipher(case, rng, n)
     nw = state.shape[1]
-    words = sorted(rng.choice(nw, int(rng.integers(1, 3)), replace=False).tolist())
+    words = rng.choice(nw, int(rng.integers(1, 4)), replace=False).tolist()          # in any order: descending / consecutive / scattered
+    if rng.random() < 0.3 and nw >= 4:
+        a0 = int(rng.integers(0, nw - 2))
+        words = [a0 + 2, a0 + 1, a0] if rng.random() < 0.5 else [a0 + 1, a0]          # consecutive indices, not ascending
+    if rng.random() < 0.5:
+        words = sorted(words)
     wsel = words if rng.random() < 0.7 or len(words) > 1 else words[0]
     ng_all = 256 if cipher == 'aes' else 64
     guess_vals = None
@@ -200,7 +210,10 @@ def run_attack(case):
         bit = int(rng.integers(0, 6))
     mono = ((st >> bit) & 1).astype(float)
     leak = mono * 4 if att == 'DPA' else hw
-    samples, pos = _simulate(rng, leak)
+    constant = bool(rng.random() < 0.3)
+    samples, pos = _simulate(rng, leak, constant=constant)
+    if constant:
+        t.count('traces_with_constant_samples')
     ng_ = 256 if cipher == 'aes' else 64
     bs = [100, 400, n, ng_, ng_][int(rng.integers(5))]          # incl. batches of exactly as many traces as guesses
     meta = {tag: data}
